@@ -108,6 +108,19 @@ Print Assumptions C38_cleared_deref_refuted.
 Example C38_derefs_nonvacuous : mem_name [97; 117; 116; 104; 95; 104; 97; 110; 100; 108; 101; 114] caller_derefs = true.
 Proof. vm_compute. reflexivity. Qed.
 
+(* Two cooperating sites: _parse_ext_info (transport thread) stores the extension value, auth_publickey
+   (caller's thread) later decodes server-sig-algs.  The stored value is exactly the bytes of one
+   get_string (generated), so for every wire value - empty included - the guarded decode yields a
+   result or an SSHException, never TypeError / UnicodeDecodeError. *)
+Theorem C38_stored_ext_value :
+  forall s, match caller_u true (store_of ext_info_store s) with Some e => allowed e = true | None => True end.
+Proof. exact stored_ext_decodes_ok. Qed.
+Print Assumptions C38_stored_ext_value.
+
+Theorem C38_stored_none_refuted : caller_u true SNone = Some TypeErr /\ allowed TypeErr = false.
+Proof. exact stored_none_leaks. Qed.
+Print Assumptions C38_stored_none_refuted.
+
 Example C38_guards_nonvacuous :
   session_guards <> [] /\ forall g, In g session_guards -> api_guarded (snd g) true true = Returns.
 Proof. split; [vm_compute; discriminate | exact session_guards_pass]. Qed.
